@@ -113,6 +113,19 @@ Example ex_truncated_kinds :
   map (fun k => c_dec (raw_codec Debug) (firstn k (c_enc (raw_codec Debug) (mkraw 70 [5; 3])))) [0; 7; 8; 16; 31]%nat
   = [IoErr UnexpectedEof; IoErr UnexpectedEof; IoErr UnexpectedEof; IoErr UnexpectedEof; IoErr UnexpectedEof].
 Proof. vm_compute. reflexivity. Qed.
+(* OUTSIDE the quantifier of C14 (these streams are malformed, not truncated) but worth recording, and confirmed on
+   the crate by the malformed stream of the C06 correspondence run: a header that is not the prefix of any valid
+   serialization can make a loader panic (overflow checks on) or accept nonsense (overflow checks off) *)
+Example ex_malformed_intvec :
+  c_dec (iv_codec Debug) (flat_map le64 [2 ^ 63; 2; 0; 0]) = IoPanic POverflow /\
+  c_dec (iv_codec Release) (flat_map le64 [2 ^ 63; 2; 0; 0]) = IoOk (mkiv (2 ^ 63) 2 (mkraw 0 []), []).
+Proof. split; vm_compute; reflexivity. Qed.
+Example ex_malformed_raw :
+  c_dec (raw_codec Debug) (flat_map le64 [2 ^ 64 - 1; 0]) = IoPanic POverflow /\
+  c_dec (raw_codec Release) (flat_map le64 [2 ^ 64 - 1; 0]) = IoOk (mkraw (2 ^ 64 - 1) [], []).
+Proof. split; vm_compute; reflexivity. Qed.
+Example ex_malformed_vec : forall m, c_dec vec_u64_codec (flat_map le64 [2 ^ 60; 1; 2]) = IoPanic POverflow.
+Proof. intros m. vm_compute. reflexivity. Qed.
 Example ex_sink : write_seq [le64 1; le64 2; [7; 7; 7]] (mksink [] 10 OtherErr)
   = (mksink [1; 0; 0; 0; 0; 0; 0; 0; 2; 0] 0 OtherErr, IoErr OtherErr).
 Proof. vm_compute. reflexivity. Qed.
